@@ -280,6 +280,50 @@ def rule_r3_r4(ctx: Ctx, a: Automaton) -> None:
     ctx.check(call_ok, od.short, "handler(line_number, ...)", "the directive's line reaches its handler unchanged", od.where(), nontrivial=False)
 
 
+def _handler_binding(fn: FuncInfo, h: ast.AST, want_path: str) -> Optional[bool]:
+    """
+    Is the (line, text) handler expression `h`, used inside `fn`, bound to the path `want_path`?
+    True:  functools.partial(F, want_path);  a lambda / local def taking (line, text) that calls something with want_path
+           (directly, or through a parameter whose default is want_path) as the first argument.
+    False: a handler that was bound elsewhere and is merely forwarded (a parameter, an attribute of self), or one bound to
+           another path.
+    None:  not recognisable.
+    """
+    if isinstance(h, ast.Call) and dotted(h.func) == "functools.partial" and len(h.args) == 2 and not h.keywords:
+        return norm(h.args[1]) == want_path
+    target: Optional[ast.AST] = None
+    if isinstance(h, ast.Lambda):
+        target = h
+    elif isinstance(h, ast.Name):
+        defs = [n for n in ast.walk(fn.node) if isinstance(n, ast.FunctionDef) and n.name == h.id and n is not fn.node]
+        if len(defs) == 1:
+            target = defs[0]
+        elif not defs:
+            return False  # a parameter / outer variable: bound by somebody else, to somebody else's file
+        else:
+            return None
+    elif isinstance(h, ast.Attribute):
+        return False  # e.g. self._print_output_handler: already bound to the file this builder works on
+    if target is None:
+        return None
+    a = target.args  # type: ignore
+    pos = [x.arg for x in a.posonlyargs + a.args]
+    defaults = dict(zip(reversed(pos), reversed([norm(d) for d in a.defaults])))
+    free = [x for x in pos if x not in defaults]
+    if len(free) != 2:
+        return None
+    body = target.body if isinstance(target.body, list) else [target.body]  # type: ignore
+    firsts = []
+    for st in body:
+        for c in ast.walk(st):
+            if isinstance(c, ast.Call) and len(c.args) == 3 and [norm(x) for x in c.args[1:]] == free:
+                f0 = norm(c.args[0])
+                firsts.append(defaults.get(f0, f0))
+    if not firsts:
+        return None
+    return all(f == want_path for f in firsts)
+
+
 def rule_r5_r6(ctx: Ctx) -> None:
     repo = ctx.repo
     ctx.rule("C17.R5", "the print handler passed to X.read(...) is bound to X's own file path", min_instances=2)
@@ -296,11 +340,11 @@ def rule_r5_r6(ctx: Ctx) -> None:
                 continue
             n += 1
             recv = norm(c.func.value)
-            good = False
             why = norm(h)
-            if isinstance(h, ast.Call) and dotted(h.func) == "functools.partial" and len(h.args) == 2:
-                good = norm(h.args[1]) in ("%s.file_path" % recv,)
-            ctx.check(good, fn.short, "%s.read(print_output_handler=%s)" % (recv, why), "a dependency read on demand must deliver its @print output with the dependency's own path, not the referrer's", fn.where(c))
+            verdict = _handler_binding(fn, h, "%s.file_path" % recv)
+            if verdict is None:
+                raise AnalysisError("C17.R5: %s: cannot tell which path the print handler %s is bound to" % (fn.qualname, why))
+            ctx.check(verdict, fn.short, "%s.read(print_output_handler=%s)" % (recv, why), "a dependency read on demand must deliver its @print output with the dependency's own path, not the referrer's", fn.where(c))
     if n < 2:
         raise AnalysisError("C17.R5: expected at least the two read() call sites that forward a print handler, found %d" % n)
     ctx.rule("C17.R6", "@print invokes the handler exactly once per evaluated directive, with the directive's line", min_instances=1)
